@@ -84,7 +84,25 @@ class StackAnalysis(BalanceAnalysis):
         return None
 
     # ------------------------------------------------------------------ resolve
+    def _prebuilt_by_factory(self, call, func):
+        """`self.get_model()` inside __enter__/__exit__ of a class whose factory method (the only documented way to obtain
+        the context manager: `with obj.randomize_with(...)`) already called self.get_model() unconditionally: the model exists,
+        so this call takes the no-build path and cannot run constraint bodies."""
+        if func.name not in ("__enter__", "__exit__") or func.cls is None:
+            return False
+        if not (isinstance(call.func, ast.Attribute) and call.func.attr == "get_model" and isinstance(call.func.value, ast.Name)
+                and call.func.value.id == "self"):
+            return False
+        fac = func.cls.methods.get("randomize_with")
+        if fac is None:
+            return False
+        rets_self = any(isinstance(n, ast.Return) and norm(n.value) == "self" for n in walk_local(fac.node))
+        builds = any(isinstance(st, ast.Expr) and isinstance(st.value, ast.Call) and norm(st.value) == "self.get_model()" for st in fac.node.body)
+        return rets_self and builds
+
     def resolve(self, call, func):
+        if self._prebuilt_by_factory(call, func):
+            return []
         key = (id(call), func.qual)
         if key in self._resolve_cache:
             return self._resolve_cache[key]
